@@ -869,7 +869,21 @@ pub fn case_dist(id: String, sp: &Sp, a: &St, b: &St) -> Option<SpCase> {
         id,
         enc: e.0,
         json: J::obj(vec![("op", J::s("distance")), ("space", sp_json(sp)), ("a", st_json(a)), ("b", st_json(b)), ("result", J::Str(format!("{r:?}"))),
-            ("ref", leaf_ref(sp, &[a, b], vec![("d", match &r { R::Ok(d) => hexf(*d), _ => J::Null })]))]),
+            ("ref", leaf_ref(sp, &[a, b], vec![("d", match &r { R::Ok(d) => hexf(*d), _ => J::Null })])),
+            ("pyw", match (sp, a, b, &r) {
+                (Sp::Rv { dim, .. }, St::Rv(x), St::Rv(y), R::Ok(d)) if x.len() == *dim && y.len() == *dim && *dim > 0 =>
+                    J::obj(vec![("op", J::s("dist")), ("kind", J::s("rv")), ("states", J::Arr(vec![J::Arr(x.iter().map(|v| hexf(*v)).collect()), J::Arr(y.iter().map(|v| hexf(*v)).collect())])), ("expect", hexf(*d))]),
+                (Sp::So2 { .. }, St::So2(x), St::So2(y), R::Ok(_)) if x.is_finite() && y.is_finite() => {
+                    // the Python constructor canonicalises: expected = the core on canonicalised states
+                    let s2 = SO2StateSpace::new(None).unwrap();
+                    let d = s2.distance(&SO2State::new(*x), &SO2State::new(*y));
+                    J::obj(vec![("op", J::s("dist")), ("kind", J::s("so2")), ("states", J::Arr(vec![J::Arr(vec![hexf(*x)]), J::Arr(vec![hexf(*y)])])), ("expect", hexf(d)),
+                        ("canon", J::Arr(vec![hexf(SO2State::new(*x).value), hexf(SO2State::new(*y).value)]))])
+                }
+                (Sp::So3 { .. }, St::So3(x), St::So3(y), R::Ok(d)) =>
+                    J::obj(vec![("op", J::s("dist")), ("kind", J::s("so3")), ("states", J::Arr(vec![J::Arr(x.iter().map(|v| hexf(*v)).collect()), J::Arr(y.iter().map(|v| hexf(*v)).collect())])), ("expect", hexf(*d))]),
+                _ => J::Null,
+            })]),
         findings: vec![],
         nontrivial: matches!(r, R::Ok(d) if d != 0.0),
     })
@@ -1050,7 +1064,20 @@ pub fn case_ctor(id: String, sp: &Sp) -> SpCase {
     SpCase {
         id,
         enc: e.0,
-        json: J::obj(vec![("op", J::s("constructor")), ("args", sp_json(sp)), ("result", J::Str(match &r { Ok(_) => "Ok".into(), Err(c) => format!("Err({c})") }))]),
+        json: J::obj(vec![("op", J::s("constructor")), ("args", sp_json(sp)), ("result", J::Str(match &r { Ok(_) => "Ok".into(), Err(c) => format!("Err({c})") })),
+            ("pyw", {
+                let bj = |b: &Option<Vec<(f64, f64)>>| match b { Some(v) => J::Arr(v.iter().map(|(lo, hi)| J::Arr(vec![hexf(*lo), hexf(*hi)])).collect()), None => J::Null };
+                let exp = ("expect_ok", J::Bool(r.is_ok()));
+                let ext = ("extent", match &r { Ok(RealSp::Rv(s)) => hexf(s.get_maximum_extent()), Ok(RealSp::So2(s)) => hexf(s.get_maximum_extent()), Ok(RealSp::So3(s)) => hexf(s.get_maximum_extent()), _ => J::Null });
+                match sp {
+                    Sp::Rv { dim, bounds, frac: None } => J::obj(vec![("op", J::s("ctor_rv")), ("dim", J::Int(*dim as i128)), ("bounds", bj(bounds)), exp, ext]),
+                    Sp::So2 { bounds, frac: None } => J::obj(vec![("op", J::s("ctor_so2")), ("bounds", match bounds { Some((lo, hi)) => J::Arr(vec![hexf(*lo), hexf(*hi)]), None => J::Null }), exp, ext]),
+                    Sp::So3 { bounds, frac: None } => J::obj(vec![("op", J::s("ctor_so3")), ("bounds", match bounds { Some((c, m)) => J::Arr(vec![J::Arr(c.iter().map(|x| hexf(*x)).collect()), hexf(*m)]), None => J::Null }), exp, ext]),
+                    Sp::Se2 { w, bounds } => J::obj(vec![("op", J::s("ctor_se2")), ("w", hexf(*w)), ("bounds", bj(bounds)), exp]),
+                    Sp::Se3 { w, bounds } => J::obj(vec![("op", J::s("ctor_se3")), ("w", hexf(*w)), ("bounds", bj(bounds)), exp]),
+                    _ => J::Null,
+                }
+            })]),
         findings,
         nontrivial: true,
     }
@@ -1074,7 +1101,8 @@ pub fn case_so2new(id: String, v: f64) -> SpCase {
             }
         }
     }
-    SpCase { id, enc: e.0, json: J::obj(vec![("op", J::s("SO2State::new")), ("v", J::Num(v)), ("result", J::Num(s.value))]), findings, nontrivial: true }
+    SpCase { id, enc: e.0, json: J::obj(vec![("op", J::s("SO2State::new")), ("v", J::Num(v)), ("result", J::Num(s.value)),
+        ("pyw", J::obj(vec![("op", J::s("so2_new")), ("v", hexf(v)), ("expect", hexf(s.value))]))]), findings, nontrivial: true }
 }
 
 pub fn case_so3norm(id: String, q: &[f64; 4]) -> SpCase {
